@@ -186,8 +186,7 @@ enum Policy {
     Rand(Rng),
     Pct { prio: Vec<i64>, changes: Vec<usize>, low: i64 },
     Fixed { seq: Vec<usize> },
-    /// option indices to follow, then always option 0; `free` = switching away from a worker that is
-    /// at the idle sleep / has exited costs nothing (pre-emption bounding)
+    /// option indices to follow, then always option 0 (the default non-pre-emptive round-robin choice)
     Dfs { prefix: Vec<usize> },
 }
 
@@ -299,18 +298,10 @@ impl Sched {
                 order.push(l);
             }
         }
-        let costs: Vec<u32> = (0..order.len())
-            .map(|i| {
-                if i == 0 {
-                    0
-                } else if free_switch {
-                    // re-running the worker that just reached the idle sleep counts as a pre-emption
-                    if Some(order[i]) == g.last { 1 } else { 0 }
-                } else {
-                    1
-                }
-            })
-            .collect();
+        // every deviation from the default (non-pre-emptive round-robin) scheduler costs 1: a pre-emption of a
+        // running worker, or picking another than the next worker when the current one sleeps / has exited
+        // (free choices there would allow unboundedly long unfair schedules)
+        let costs: Vec<u32> = (0..order.len()).map(|i| if i == 0 { 0 } else { 1 }).collect();
         let chosen = match &mut g.policy {
             Policy::Rand(rng) => {
                 let c = live[rng.below(live.len())];
@@ -812,6 +803,16 @@ fn run_case(c: &Case, case_text: &str, sc: &mut Scratch, drv: &mut Driver, rep: 
             }
         }
     }
+    if let Ok(b) = std::env::var("C07_FIND") {
+        // developer aid: print replayable cases that reach a given evidence branch
+        if (b == "counter0" && rep.branches.get("counter-hit-0-while-idle-thief-holds-work").copied().unwrap_or(0) > 0
+            && !rep.notes.iter().any(|n| n.starts_with("found counter0")))
+            || (b == "batch" && big_batches > 0 && !rep.notes.iter().any(|n| n.starts_with("found batch")))
+        {
+            eprintln!("FOUND {} case {}", b, fixed_case);
+            rep.notes.push(format!("found {}", b));
+        }
+    }
     if c.n >= 2 && (steals > 0 || quit_hit) {
         rep.nontrivial(&format!("{} {}", show_forest(&c.forest), dotted(&workers)));
     }
@@ -873,8 +874,12 @@ fn explore(
     loop {
         let c = Case { sched: format!("dfs:{}", dotted(&prefix)), ..base.clone() };
         let text = show_case(&c);
+        let t0 = std::time::Instant::now();
         let out = run_case(&c, &text, sc, drv, rep);
         runs += 1;
+        if std::env::var("C07_DEBUG").is_ok() {
+            eprintln!("dfs run {} steps {} {:?} prefix-len {} {}", runs, out.decisions.len(), t0.elapsed(), prefix.len(), text.chars().take(100).collect::<String>());
+        }
         if out.violated || runs >= cap {
             return (runs, !out.violated && runs < cap);
         }
